@@ -69,7 +69,17 @@ fn walk(dir: &std::path::Path, prefix: &str, out: &mut BTreeMap<String, Entry>) 
     }
 }
 
+/// Runs `script` with the project's real entry point `yash_cli::main` (argument parsing, the
+/// real glue of `run_as_shell_process`, RealSystem) in a scratch directory. No probe built-ins.
+pub fn run_yash3(script: &str, files: &[(String, FileSpec)]) -> Result<RealResult, String> {
+    run_impl(script, files, true)
+}
+
 pub fn run(script: &str, files: &[(String, FileSpec)]) -> Result<RealResult, String> {
+    run_impl(script, files, false)
+}
+
+fn run_impl(script: &str, files: &[(String, FileSpec)], yash3: bool) -> Result<RealResult, String> {
     let dir = tempfile::Builder::new().prefix("vcheck-real-").tempdir().map_err(|e| e.to_string())?;
     let work = dir.path().join("top").join("work");
     std::fs::create_dir_all(&work).map_err(|e| e.to_string())?;
@@ -99,14 +109,14 @@ pub fn run(script: &str, files: &[(String, FileSpec)]) -> Result<RealResult, Str
     let case_path = dir.path().join("case.json");
     std::fs::write(&case_path, serde_json::to_string(&case).unwrap()).map_err(|e| e.to_string())?;
     let exe = std::env::current_exe().map_err(|e| e.to_string())?;
-    let out = std::process::Command::new(exe)
-        .arg("__real")
-        .arg(&case_path)
-        .current_dir(&work)
-        .env_clear()
-        .stdin(std::process::Stdio::null())
-        .output()
-        .map_err(|e| e.to_string())?;
+    let mut cmd = std::process::Command::new(exe);
+    if yash3 {
+        use std::os::unix::process::CommandExt as _;
+        cmd.arg0("yash3").arg("-c").arg(script).env_clear().env("VCHECK_AS_YASH3", "1").env("PATH", "/usr/bin:/bin");
+    } else {
+        cmd.arg("__real").arg(&case_path).env_clear();
+    }
+    let out = cmd.current_dir(&work).stdin(std::process::Stdio::null()).output().map_err(|e| e.to_string())?;
     let status = match (out.status.code(), out.status.signal()) {
         (Some(c), _) => c,
         (None, Some(s)) => 384 + s,
